@@ -445,7 +445,11 @@ func (mt *mutablePatternRoutingTable) commit() *staticPatternRoutingTable {
 }
 
 func (mt *mutablePatternRoutingTable) iterate(method string, fn func(target *bridgedesc.Target, route *patternRoute) bool) {
-	mt.static.Load().iterate(method, fn)
+	st := mt.static.Load()
+
+	verifhook.Point("pattern.route.afterLoad", method)
+
+	st.iterate(method, fn)
 }
 
 // staticPatternRoutingTable is a pattern-based routing table which can only be read.
